@@ -163,7 +163,18 @@ pub fn replay(path: &str) -> i32 {
     let cell_name = doc["cell"].as_str().unwrap();
     let choices: Vec<u16> = doc["choices"].as_array().unwrap().iter().map(|v| v.as_u64().unwrap() as u16).collect();
     let labels: Vec<String> = doc["choice_labels"].as_array().map(|a| a.iter().filter_map(|v| v.as_str().map(String::from)).collect()).unwrap_or_default();
-    for tier in [Tier::Quick, Tier::Thorough] {
+    // a cell of one name may be configured differently in the two tiers (more rounds): the tier
+    // whose configuration is the recorded one is replayed, the quick one if neither matches
+    let recorded = &doc["cell_config"];
+    let tiers = if !recorded.is_null()
+        && cells_of(prop, Tier::Thorough).is_some_and(|(plans, _)| plans.iter().any(|p| p.cell.cell_name() == cell_name && &p.cell.cell_cfg() == recorded))
+        && !cells_of(prop, Tier::Quick).is_some_and(|(plans, _)| plans.iter().any(|p| p.cell.cell_name() == cell_name && &p.cell.cell_cfg() == recorded))
+    {
+        [Tier::Thorough, Tier::Quick]
+    } else {
+        [Tier::Quick, Tier::Thorough]
+    };
+    for tier in tiers {
         let Some((plans, _)) = cells_of(prop, tier) else { break };
         for p in plans {
             if p.cell.cell_name() == cell_name {
